@@ -204,7 +204,9 @@ CHECKS = {
         "the tensors handed to eig. Theorems: every tensor symmetric; zero outside the radius; jointly linear in (pressures, tensions); -p*I "
         "for pure pressure; bin edges/centres; the key is injective for grid<=11 and collides at grid 12 (witnesses) so that principal_stress "
         "then reports another cell's tensor (known finding KF2). Per run: tensors, keys and principal inputs compared with the model (1e-10 / "
-        "exactly) and each clause evaluated on the real code with arbitrary assigned pressures/tensions, grids 1..12, radii 0.5..6.",
+        "exactly) and each clause evaluated on the real code with arbitrary assigned pressures/tensions, grids 1..12, radii 0.5..6; in a quarter "
+        "of the cases the radius is re-tuned so that one cell centre lies on the averaging circle exactly in floating point (oracle only: the "
+        "boundary belongs to the disc).",
    design_ref="DESIGN.md §7 C18",
    technique="Lean 4 theorems over Rat model of the coarse-grained tensor + differential check against forsys.stress_tensor",
    note=BASE_NOTE + " np.histogram's edges, sqrt/pi in the radius and np.linalg.eig are trusted/external."),
